@@ -3,6 +3,9 @@ mod c01;
 mod c03;
 mod c06;
 mod c07;
+mod c08;
+mod evolve;
+mod refresolve;
 mod c13;
 mod c14;
 mod c18;
@@ -52,6 +55,8 @@ fn main() {
         "C03" => c03::run_check(tier, replay.as_ref()),
         "C06" => c06::run(tier, filter),
         "C07" => c07::run(tier, filter),
+        "C08" => c08::run_c08(tier, replay.as_ref()),
+        "C09" => c08::run_c09(tier, replay.as_ref()),
         "C13" => c13::run(tier, replay.as_ref()),
         "C14" => c14::run(tier, replay.as_ref()),
         "C18" => c18::run(tier, replay.as_ref()),
